@@ -361,7 +361,12 @@ impl IdAware<AnyWorkId> for Glyph {
 impl Persistable for Glyph {
     fn read(from: &mut dyn Read) -> Self {
         let (name, bytes): (GlyphName, Vec<u8>) = bincode::deserialize_from(from).unwrap();
-        let glyph = FontRead::read(bytes.as_slice().into()).unwrap();
+        // an empty glyph (e.g. space) is written as zero bytes, which is not a parseable glyph
+        let glyph = if bytes.is_empty() {
+            RawGlyph::Empty
+        } else {
+            FontRead::read(bytes.as_slice().into()).unwrap()
+        };
         Glyph { name, data: glyph }
     }
 
